@@ -17,7 +17,9 @@ MCData == {<< <<<<"x", Hash(<< <<"a", Arr(<<IntV(1), IntV(2), IntV(3)>>)>>, <<"a
 MCCfgs == {[Cfg("+", TRUE, FALSE, "default") EXCEPT !.shopify = TRUE]}
 MCPartials == <<>>
 
-Prims == {NilE, TrueE, FalseE, EmptyE, BlankE, I(0), I(-7), I(42), S("sq"), SQ("dq", "\""), SQ("it's", "\""), SQ("say \"hi\"", "'"),
+Floats == {FloatE("1.5", 15, 1), FloatE("2.50", 250, 2), FloatE("-0.25", -25, 2), FloatE("3.0", 30, 1), FloatE("1.5e1", 15, 0), FloatE("2e-1", 2, 1),
+           FloatE("0.1", 1, 1)}
+Prims == Floats \cup {NilE, TrueE, FalseE, EmptyE, BlankE, I(0), I(-7), I(42), S("sq"), SQ("dq", "\""), SQ("it's", "\""), SQ("say \"hi\"", "'"),
           X, Y, VP("x", "k"), Path(<<Key("x"), KeyB("a b")>>), Path(<<Key("x"), Key("a"), Idx(0)>>),
           Path(<<Key("x"), Key("a"), Idx(-1)>>), Path(<<Key("x"), Sub(<<Key("k")>>), Idx(1)>>),
           Path(<<Key("x"), Sub(<<Key("x"), Key("k")>>)>>), Path(<<Key("x"), KeyB("h"), Key("b")>>),
@@ -31,7 +33,8 @@ Filters == {<<Fl("upcase", <<>>)>>, <<Fl("append", <<S("!")>>)>>, <<Fl("append",
             <<Fk("default", <<S("d")>>, <<WArg("allow_false", TrueE)>>)>>, <<Fl("default", <<Y>>)>>,
             <<Fl("slice", <<I(1), I(2)>>)>>, <<Fl("replace", <<S("a"), S("b")>>)>>, <<Fl("truncate", <<I(5), S("..")>>)>>,
             <<Fl("join", <<S(", ")>>)>>, <<Fl("split", <<S("")>>), Fl("join", <<S("-")>>)>>, <<Fl("plus", <<I(-1)>>), Fl("times", <<Y>>)>>,
-            <<Fl("at_least", <<I(0)>>)>>, <<Fl("json", <<>>)>>, <<Fl("first", <<>>)>>, <<Fl("concat", <<Path(<<Key("x"), Key("a")>>)>>)>>}
+            <<Fl("at_least", <<I(0)>>)>>, <<Fl("plus", <<FloatE("0.2", 2, 1)>>)>>, <<Fl("round", <<I(1)>>)>>, <<Fl("floor", <<>>)>>,
+            <<Fl("times", <<FloatE("1.5", 15, 1)>>), Fl("minus", <<I(1)>>)>>, <<Fl("json", <<>>)>>, <<Fl("first", <<>>)>>, <<Fl("concat", <<Path(<<Key("x"), Key("a")>>)>>)>>}
 LamFilters == {<<Fl("map", <<Lam(<<"i">>, VP("i", "a"))>>)>>, <<Fl("map", <<S("t")>>), Fl("join", <<S("+")>>)>>,
                <<Fl("where", <<Lam(<<"i">>, Cmp("==", VP("i", "a"), I(1)))>>), Fl("map", <<S("t")>>)>>,
                <<Fl("where", <<S("a"), I(2)>>), Fl("map", <<S("t")>>)>>,
